@@ -221,9 +221,12 @@ class LLHRatioZeroNsTaylorWilksTestStatistic(
 
         if ns == 0:
             nsgrad = grads[ns_pidx]
+            src_params_recarray = pmm.create_src_params_recarray(
+                gflp_values=fitparam_values)
             nsgrad2 = llhratio.calculate_ns_grad2(
-                fitparam_values=fitparam_values,
+                ns=ns,
                 ns_pidx=ns_pidx,
+                src_params_recarray=src_params_recarray,
                 tl=tl)
 
             TS = -2 * nsgrad**2 / (4*nsgrad2)
